@@ -13,7 +13,7 @@ from ._sim_common import frac, summarize
 ID = "C14"
 RULE = ("(fund) Hypothesis generates 2-4 markets (zero volatility in ~60% of cases, with drift), a FundamentalPriceShock placed "
         "in any session with triggerTime / shockTimeLength inside, across the end of, or beyond its session, rate of either "
-        "sign, enabled or not. Oracle: with zero volatility the whole fundamental series of every market equals initial * "
+        "sign or exactly 0, enabled or not; one run in six continues across the 100-step generation chunks. Oracle: with zero volatility the whole fundamental series of every market equals initial * "
         "exp(drift*t) * (1+rate)^(number of executed window steps <= t) for the target and without the product for all "
         "others (rel 1e-9); for any volatility, the fundamental of every market read in the first before-step hook of a step "
         "and read again at the step-begin record differs exactly by the factor (1+rate) for the target on window steps and "
@@ -47,9 +47,12 @@ def fund_cases(draw, tier):
     cfg["P"] = {"class": "VProbeEvent", "hooks": [["market", True, None, None, None]]}
     ns = draw(st.integers(1, 3))
     lens = [draw(st.integers(1, 8 if tier == "quick" else 40)) for _ in range(ns)]
+    if draw(st.integers(0, 5)) == 0:
+        # a run that goes on across the 100-step generation chunks after the shock
+        lens[-1] = draw(st.sampled_from([97, 103, 130, 205]))
     shs = draw(st.integers(0, ns - 1))
     cfg["SH"] = {"class": "FundamentalPriceShock", "target": draw(st.sampled_from(names)),
-                 "triggerTime": draw(st.integers(0, lens[shs] + 2)), "priceChangeRate": draw(st.sampled_from([0.1, -0.1, 0.5, -0.3, 0.05])),
+                 "triggerTime": draw(st.integers(0, min(lens[shs], 60) + 2)), "priceChangeRate": draw(st.sampled_from([0.1, -0.1, 0.5, -0.3, 0.05, 0.0])),
                  "shockTimeLength": draw(st.integers(1, 5)), "enabled": draw(st.sampled_from([True, True, True, False]))}
     if draw(st.booleans()):
         del cfg["SH"]["shockTimeLength"]
@@ -105,7 +108,7 @@ def fund_check(case):
                                                                          f"(expected factor {factor}; target {ti}, window {window})")
     nt = bool(window)
     classes = (["window"] if window else []) + (["disabled"] if not sh["enabled"] else []) + \
-              (["window_truncated"] if sh["enabled"] and len(window) < length else [])
+              (["window_truncated"] if sh["enabled"] and len(window) < length else []) + (["crosses_chunk_after_shock"] if window and A.total_steps > 100 else [])
     return CaseInfo(nontrivial=nt, classes=classes, steps=A.total_steps,
                     sample={"shock": sh, "session_lengths": [s["iterationSteps"] for s in A.sess_cfg], "shock_session": shs, "window": window, "seed": case["seed"]})
 
@@ -130,7 +133,7 @@ def mistake_cases(draw, tier):
     lens = [draw(st.integers(1, 6)) for _ in range(ns)]
     shs = draw(st.integers(0, ns - 1))
     cfg["OM"] = {"class": "OrderMistakeShock", "target": draw(st.sampled_from(names)), "triggerTime": draw(st.integers(0, lens[shs])),
-                 "priceChangeRate": draw(st.sampled_from([-0.05, 0.05, -0.2, 0.1])), "orderVolume": draw(st.integers(1, 500)),
+                 "priceChangeRate": draw(st.sampled_from([-0.05, 0.05, -0.2, 0.1, 0.0])), "orderVolume": draw(st.integers(1, 500)),
                  "orderTimeLength": draw(st.integers(1, 10)), "enabled": draw(st.sampled_from([True, True, True, False]))}
     for s in range(ns):
         cfg["simulation"]["sessions"].append({"sessionName": s, "iterationSteps": lens[s], "withOrderPlacement": True,
